@@ -600,7 +600,7 @@ func (e *Exec) monitorWatchers(j *Judgement, events []*world.Event) (missed, mis
 					// is the store's own doing, not the Atomix client's subscription race (KF-C15-1)
 					missedOwnFanout++
 				}
-				j.add("watchers", []string{"C15"}, "watchers/missed-latest-version", "%s was never shown version %d of %s %s (last shown: %d)", strings.TrimSuffix(w, "/"+store), fv, r.store, r.id, m[r])
+				j.add("watchers", []string{"C15"}, "watchers/missed-latest-version/"+store, "%s was never shown version %d of %s %s (last shown: %d)", strings.TrimSuffix(w, "/"+store), fv, r.store, r.id, m[r])
 			}
 		}
 	}
